@@ -185,6 +185,49 @@ EXTRA_PATCH = {
         "def find_sec(text):", "_SEC_ACC = []\n\n\ndef find_sec(text):"),
 }
 
+def soundness(only=None):
+    """No check may raise an alarm on a behaviour-preserving refactoring."""
+    from .benign import BENIGN
+    bad = 0
+    for name, props, patches in BENIGN:
+        if only and only != name and only not in props:
+            continue
+        d = _scratch_copy()
+        out = tempfile.mkdtemp(prefix="pytrs-ben-out-", dir="/tmp")
+        try:
+            ok = all(_apply(d, f, o, n) for f, o, n in patches)
+            if not ok:
+                print(f"  {name}: PATCH-DOES-NOT-APPLY")
+                bad += 1
+                continue
+            t = subprocess.run(
+                [PY, "-m", "pytest", "-q", "-x", "-p", "no:cacheprovider",
+                 os.path.join(d, "tests")], cwd=d, capture_output=True,
+                text=True, timeout=900, env=dict(os.environ, PYTHONPATH=d))
+            tests = "pass" if t.returncode == 0 else "FAIL"
+            for prop in props:
+                env = dict(os.environ, VERIF_REPO=d, VERIF_OUT=out,
+                           VERIF_MIN_BUDGET="40")
+                t0 = time.monotonic()
+                p = subprocess.run(
+                    [PY, CHECK, "run", prop, "--runs", str(QUICK_RUNS[prop])],
+                    env=env, capture_output=True, text=True, timeout=3600)
+                dt = time.monotonic() - t0
+                silent = p.returncode == 0 and "VIOLATION" not in p.stdout
+                verdict = "silent" if silent else \
+                    "FALSE-ALARM(exit %d)" % p.returncode
+                print(f"  {name:48s} {prop} {verdict} {dt:6.1f}s "
+                      f"tests={tests}", flush=True)
+                if not silent:
+                    bad += 1
+                    print(p.stdout[-2500:], p.stderr[-500:])
+        finally:
+            shutil.rmtree(d, ignore_errors=True)
+            shutil.rmtree(out, ignore_errors=True)
+    print(f"soundness: {bad} false alarms / problems")
+    return 1 if bad else 0
+
+
 QUICK_RUNS = {"C13": 5000, "C14": 10000, "C15": 6000, "C19": 1200}
 
 
@@ -330,6 +373,8 @@ def main(which, rest):
     if which == "sensitivity":
         only = rest[0] if rest else None
         return sensitivity(only)
+    if which == "soundness":
+        return soundness(rest[0] if rest else None)
     if which == "simfs":
         return simfs_validation(int(rest[0]) if rest else 200)
     print("unknown selftest", which)
